@@ -237,6 +237,48 @@ def check(idx: Index, rep: Report, tier: str) -> str:
         else:
             raise AnalysisError(f"{f.fq}: guard of the forwarding loop at line {w.lineno} not understood: {sorted(nf)[:4]}")
 
+    # ---- R7: operation positions are not used after the block was edited
+    r = rep.rule("C16.R7", "in desymref, a position obtained from Block.get_operation_index is not used after an operation of the block was erased or replaced (positions shift): it is recomputed after every edit", floor=1)
+    from ..srcindex import raw_funcs as _raw
+
+    MUT = {"replace_op", "erase_op", "erase_matched_op", "replace_matched_op", "insert_op", "insert_op_before", "insert_op_after", "detach_op", "erase"}
+    n_pos = 0
+    for g in _raw(idx.module("xdsl/transforms/desymref.py")):
+        pos_defs: dict[str, list[ast.AST]] = {}
+        for st in walk_local(g.node):
+            if isinstance(st, (ast.Assign, ast.AnnAssign)) and st.value is not None and any(isinstance(c_, ast.Call) and call_attr(c_) == "get_operation_index" for c_ in ast.walk(st.value)):
+                for t_ in (st.targets if isinstance(st, ast.Assign) else [st.target]):
+                    if isinstance(t_, ast.Name):
+                        pos_defs.setdefault(t_.id, []).append(st)
+        if not pos_defs:
+            continue
+        gcfg = CFG(g.node)
+        muts = [gcfg.node_of(c_) for c_ in calls_in(g.node) if call_attr(c_) in MUT]
+        for nm, defs in pos_defs.items():
+            n_pos += 1
+            dn = {gcfg.node_of(d_) for d_ in defs}
+            stale = None
+            for u in walk_local(g.node):
+                if isinstance(u, ast.Name) and u.id == nm and isinstance(u.ctx, ast.Load):
+                    try:
+                        un = gcfg.node_of(u)
+                    except AnalysisError:
+                        continue
+                    for m_ in muts:
+                        if m_ == un or gcfg.path_avoiding(m_, un, lambda n: n.id in dn, follow_exc=False) is not None:
+                            stale = (u, m_)
+                            break
+                if stale:
+                    break
+            inst = f"{g.fq}:{nm}"
+            if stale:
+                u, m_ = stale
+                r.fail(inst, Finding("C16.R7", g.fq, f"stale-position:{nm}", f"`{nm}` holds block positions computed at line {defs[0].lineno} and is used at line {u.lineno} after `{gcfg.nodes[m_].text()[:60]}` edited the block without `{nm}` being recomputed: once an earlier read has been erased the later operations have moved up, so a write that precedes a read can be skipped and the read receives the value of an older write", f"{g.module.relpath}:{u.lineno}"))
+            else:
+                r.ok(inst, f"{g.module.relpath}:{defs[0].lineno} `{nm}` recomputed before every use that follows an edit")
+    if n_pos == 0:
+        raise AnalysisError("desymref: no position computed with get_operation_index found")
+
     return (
         "Guarded-action rules on the two code-motion transformations (LICM, control-flow hoist) and two structural rules on "
         "loop unrolling (simultaneous update) and range folding (per-iteration single-use test). scf->cf conversion, affine "
